@@ -5,18 +5,86 @@ from model import World
 import hist
 
 LEVEL = "exploration"
-QUICK_RUNS = 1500
+QUICK_RUNS = 2900
 QUICK_BUDGET_S = 75
 THOROUGH_RUNS = 10 ** 7
-RULE = ("seeded random walks (length 5-60, short ones dominate) over C_OpenSession(RO/RW), C_CloseSession, C_CloseAllSessions, "
+RULE = ("exhaustive stratum first: every sequence of 18 abstract actions up to length 2 (quick: 1368 plans) / 3 (thorough: 24696 plans) after each of four prefixes on two tokens; then "
+        "seeded random walks (length 5-60, short ones dominate) over C_OpenSession(RO/RW), C_CloseSession, C_CloseAllSessions, "
         "C_Login(USER/SO/CONTEXT_SPECIFIC, right/wrong/other PIN), C_Logout, C_InitToken, C_InitPIN, C_SetPIN and restarts over <=4 sessions "
         "on 1-2 tokens, executed by the real library on the simulated disk; after EVERY call all session handles are read out with "
         "C_GetSessionInfo and compared with the reference model. A case is distinct+non-trivial per (model login state, #RO, #RW sessions of the "
         "token, operation, outcome) reached with at least one predicate evaluated.")
-PROBES = ["login_ok", "login_refused_wrongpin", "so_refused_ro_exists", "ro_refused_so", "inittoken_refused_session", "last_close_logout", "closeall_logout", "failed_call_state_checked", "restart"]
+PROBES = ["login_ok", "login_refused_wrongpin", "so_refused_ro_exists", "ro_refused_so", "inittoken_refused_session", "last_close_logout", "closeall_logout", "failed_call_state_checked", "restart", "enumerated_plans"]
 DEATH_IS_VIOLATION = ()
 
+# ---- exhaustive stratum (the quantifier asks for "exhaustively up to a bounded length, randomly beyond"): every sequence of abstract actions up to length
+# 2 (quick) / 3 (thorough) after each of four prefixes, on two tokens A and B. The seeded random walks come after these indices.
+ALPHA = ["openRO_A", "openRW_A", "openRW_B", "close_first_A", "close_last", "closeall_A", "login_user_ok", "login_user_wrong", "login_so_ok", "login_so_wrong", "login_ctx",
+         "login_user_ok_B", "logout", "inittoken_A", "initpin", "setpin_ok", "setpin_wrong", "restart"]
+PREFIXES = [[], ["openRW_A"], ["openRW_A", "login_user_ok"], ["openRO_A", "openRW_A", "login_so_ok"]]
+def enum_total(tier):
+    L = 2 if tier == "quick" else 3
+    return len(PREFIXES) * sum(len(ALPHA) ** k for k in range(1, L + 1))
+
+def enum_seq(tier, index):
+    L = 2 if tier == "quick" else 3
+    per = sum(len(ALPHA) ** k for k in range(1, L + 1))
+    pre = PREFIXES[index // per]; j = index % per
+    for k in range(1, L + 1):
+        if j < len(ALPHA) ** k:
+            seq = []
+            for _ in range(k): seq.append(ALPHA[j % len(ALPHA)]); j //= len(ALPHA)
+            return pre + seq
+        j -= len(ALPHA) ** k
+
+def act(g, name, A, B):
+    w = g.w; P = w.proc(1)
+    live = list(P.sessions.values()); liveA = [s for s in live if s.tok == A]; liveB = [s for s in live if s.tok == B]
+    def login(s, user, right):
+        tk = s.tok; cur = w.toks[tk].so_pin if user == K.CKU_SO else w.toks[tk].user_pin
+        pin = cur if right else g.near_pin(cur or b"abcd")
+        ok = right and cur is not None and P.login.get(tk) is None and not (user == K.CKU_SO and any(not z.rw for z in w.sessions_on(1, tk)))
+        g.emit({"f": "C_Login", "s": s.ref, "user": user, "pin": pin.hex()}, ok=ok)
+    if name.startswith("open"):
+        t = A if name.endswith("_A") else B; rw = "RW" in name; s = g.new_sess()
+        g.emit({"f": "C_OpenSession", "slot": t, "flags": RW if rw else RO, "out": s}, ok=not (not rw and P.login.get(t) == "S"))
+    elif name == "close_first_A": g.emit({"f": "C_CloseSession", "s": liveA[0].ref if liveA else "S1"}, ok=bool(liveA) or "S1" in P.sessions)
+    elif name == "close_last":
+        ref = live[-1].ref if live else "S1"; g.emit({"f": "C_CloseSession", "s": ref}, ok=ref in P.sessions)
+    elif name == "closeall_A": g.emit({"f": "C_CloseAllSessions", "slot": A})
+    elif name in ("login_user_ok", "login_user_wrong", "login_so_ok", "login_so_wrong", "login_ctx"):
+        if not liveA: g.emit({"f": "C_Login", "s": "S1", "user": K.CKU_USER, "pin": (w.toks[A].user_pin or b"nonesuch").hex()}, ok=False); return
+        s = liveA[-1]
+        if name == "login_ctx": g.emit({"f": "C_Login", "s": s.ref, "user": K.CKU_CONTEXT_SPECIFIC, "pin": (w.toks[A].user_pin or b"nonesuch").hex()}, ok=False)
+        else: login(s, K.CKU_SO if "_so_" in name else K.CKU_USER, name.endswith("_ok"))
+    elif name == "login_user_ok_B":
+        if liveB: login(liveB[-1], K.CKU_USER, True)
+        else: g.emit({"f": "C_GetSessionInfo", "s": "S1"}, ok="S1" in P.sessions)
+    elif name == "logout":
+        ref = liveA[-1].ref if liveA else (live[-1].ref if live else "S1"); g.emit({"f": "C_Logout", "s": ref}, ok=ref in P.sessions)
+    elif name == "inittoken_A": g.emit({"f": "C_InitToken", "slot": A, "pin": w.toks[A].so_pin.hex(), "label": A, "out": A}, ok=not liveA)
+    elif name == "initpin":
+        ref = liveA[-1].ref if liveA else "S1"; g.emit({"f": "C_InitPIN", "s": ref, "pin": g.pin().hex()}, ok=bool(liveA) and P.login.get(A) == "S")
+    elif name in ("setpin_ok", "setpin_wrong"):
+        if not liveA: g.emit({"f": "C_SetPIN", "s": "S1", "old": b"abcd".hex(), "new": g.pin().hex()}, ok=False); return
+        s = liveA[-1]; st_ = P.login.get(A); cur = w.toks[A].so_pin if st_ == "S" else w.toks[A].user_pin
+        old = cur if (name == "setpin_ok" and cur is not None) else g.near_pin(cur or b"abcd")
+        g.emit({"f": "C_SetPIN", "s": s.ref, "old": old.hex(), "new": g.pin().hex()}, ok=(s.rw and old == cur))
+    elif name == "restart": g.emit({"act": "restart"})
+
+def gen_enum(seed, tier, index):
+    g = G(seed, "C03"); g.emit({"act": "start"})
+    A = g.setup_token(user_pin=True, so_pin=g.pin(), upin=g.pin()); B = g.setup_token(user_pin=True, so_pin=g.pin(), upin=g.pin())
+    probe = {"act": "probe_handles", "via": []}
+    g.emit(dict(probe))
+    seq = enum_seq(tier, index)
+    for name in seq:
+        act(g, name, A, B); g.emit(dict(probe))
+    g.extra["enumerated"] = seq
+    return g.plan()
+
 def gen(seed, tier, index):
+    if index < enum_total(tier): return gen_enum(seed, tier, index)
     g = G(seed, "C03")
     r = g.r
     g.emit({"act": "start"})
@@ -196,6 +264,7 @@ def check(plan, r):
 
 def cover(plan, r):
     cov, stats = r.aux.get("c03", (set(), {}))
+    if plan.get("enumerated") is not None: stats = dict(stats); stats["enumerated_plans"] = 1
     return {"keys": sorted(cov), "nontrivial": stats.get("state_compared", 0) > 0, "stats": stats}
 
 TECHNIQUE = "deterministic simulation: seeded call-sequence search against a sequential reference model of the session/login state machine, full session read-out after every call"
